@@ -30,15 +30,19 @@ pub open spec fn pad_block(key: Seq<u8>, block_len: int, c: u8) -> Seq<u8> {
 pub open spec fn spec_hmac(id: int, bl: int, key: Seq<u8>, data: Seq<u8>) -> Seq<u8> {
     hash_fn(id, pad_block(key, bl, 0x5c) + hash_fn(id, pad_block(key, bl, 0x36) + data))
 }
+#[verifier::opaque]
 pub open spec fn hkdf1(id: int, bl: int, ck: Seq<u8>, ikm: Seq<u8>) -> Seq<u8> {
     spec_hmac(id, bl, spec_hmac(id, bl, ck, ikm), seq![1u8])
 }
+#[verifier::opaque]
 pub open spec fn hkdf2(id: int, bl: int, ck: Seq<u8>, ikm: Seq<u8>) -> Seq<u8> {
     spec_hmac(id, bl, spec_hmac(id, bl, ck, ikm), hkdf1(id, bl, ck, ikm) + seq![2u8])
 }
+#[verifier::opaque]
 pub open spec fn hkdf3(id: int, bl: int, ck: Seq<u8>, ikm: Seq<u8>) -> Seq<u8> {
     spec_hmac(id, bl, spec_hmac(id, bl, ck, ikm), hkdf2(id, bl, ck, ikm) + seq![3u8])
 }
+#[verifier::opaque]
 pub open spec fn spec_rekey(id: int, k: Seq<u8>) -> Seq<u8> {
     aead_enc(id, k, u64::MAX, Seq::<u8>::empty(), zeros(32)).subrange(0, 32)
 }
